@@ -133,6 +133,9 @@ func solveAll(obls []*Obligation, dir string, timeoutS int, seed int, all bool, 
 	var wg sync.WaitGroup
 	sem := make(chan struct{}, workers)
 	for i, o := range obls {
+		if o.Res != nil {
+			continue // decided without a solver (syntactic census)
+		}
 		if o.Goal == "true" {
 			o.Res = &SolveResult{Status: "unsat", Solver: "simplifier"}
 			continue
